@@ -142,4 +142,169 @@ theorem assigned_work_is_failure_free_and_ready (multi : Bool) (pool cpu ram : N
       simp only [Bool.and_eq_true, Bool.not_true, Bool.false_or, List.all_eq_true, beq_iff_eq] at h2
       exact h2.2 q hq
 
+/-- a pipeline the scan passes over: finished or with a failure (dropped), or with nothing ready at the moment (put back) -/
+def Skipped (w : World) (multi : Bool) (pid : Nat) : Prop :=
+  (w.successful pid || w.hasFailures pid) = true ∨ (opsFor w multi pid).isEmpty = true
+
+/-- **first come, first served (one pool).**  The container of a pool goes to the *first* pipeline of the waiting queue that is neither finished nor
+failed and has something ready; every pipeline before it was passed over for exactly one of those reasons, the ones behind it keep their order, and the
+ones put back (and the served one) are appended, in scan order, to the list of pipelines to be queued again. -/
+theorem first_eligible_pipeline_is_served (multi : Bool) (pool cpu ram : Nat) : ∀ (queue : List Nat) (w : World) (req : List Nat) (w' : World) (rest req' : List Nat) (a : Asg),
+    pop w multi pool cpu ram queue req = .ok (w', rest, req', some a) →
+    ∃ pre pid, queue = pre ++ pid :: rest ∧ (∀ x ∈ pre, Skipped w multi x) ∧ ¬ Skipped w multi pid ∧ a.ops = opsFor w multi pid ∧
+      req' = req ++ pre.filter (fun x => !(w.successful x || w.hasFailures x)) ++ [pid] := by
+  intro queue
+  induction queue with
+  | nil => intro w req w' rest req' a h; simp [pop] at h
+  | cons x q ih =>
+    intro w req w' rest req' a h
+    unfold pop at h
+    split at h
+    · rename_i hs
+      obtain ⟨pre, pid, e, h1, h2, h3, h4⟩ := ih _ _ _ _ _ _ h
+      refine ⟨x :: pre, pid, by rw [e]; rfl, ?_, h2, h3, ?_⟩
+      · intro y hy
+        rcases List.mem_cons.mp hy with rfl | hy
+        · exact Or.inl hs
+        · exact h1 y hy
+      · rw [h4, List.filter_cons]; simp [hs]
+    · rename_i hs
+      split at h
+      · rename_i he
+        obtain ⟨pre, pid, e, h1, h2, h3, h4⟩ := ih _ _ _ _ _ _ h
+        refine ⟨x :: pre, pid, by rw [e]; rfl, ?_, h2, h3, ?_⟩
+        · intro y hy
+          rcases List.mem_cons.mp hy with rfl | hy
+          · exact Or.inr he
+          · exact h1 y hy
+        · rw [h4, List.filter_cons]; simp [hs]
+      · rename_i he
+        split at h
+        · cases h
+        · rename_i w1 a1 hmk
+          simp at h
+          obtain ⟨_, rfl, rfl, rfl⟩ := h
+          obtain ⟨rfl, _⟩ := mkA_ok hmk
+          refine ⟨[], x, rfl, by simp, ?_, rfl, by simp⟩
+          rintro (h' | h')
+          · exact hs h'
+          · exact he h'
+
+/-- `Pairs R as pids`: the two lists have the same length and are related position by position -/
+inductive Pairs (R : Asg → Nat → Prop) : List Asg → List Nat → Prop
+  | nil : Pairs R [] []
+  | cons {a : Asg} {p : Nat} {as : List Asg} {ps : List Nat} : R a p → Pairs R as ps → Pairs R (a :: as) (p :: ps)
+
+/-- a scan that serves nobody has passed over the whole queue -/
+theorem pop_none (multi : Bool) (pool cpu ram : Nat) : ∀ (queue : List Nat) (w : World) (req : List Nat) (w' : World) (rest req' : List Nat),
+    pop w multi pool cpu ram queue req = .ok (w', rest, req', none) →
+    rest = [] ∧ (∀ x ∈ queue, Skipped w multi x) ∧ req' = req ++ queue.filter (fun x => !(w.successful x || w.hasFailures x)) := by
+  intro queue
+  induction queue with
+  | nil => intro w req w' rest req' h; simp [pop] at h; simp [h]
+  | cons x q ih =>
+    intro w req w' rest req' h
+    unfold pop at h
+    split at h
+    · rename_i hs
+      obtain ⟨e, h1, h4⟩ := ih _ _ _ _ _ h
+      refine ⟨e, ?_, by rw [h4, List.filter_cons]; simp [hs]⟩
+      intro y hy
+      rcases List.mem_cons.mp hy with rfl | hy
+      · exact Or.inl hs
+      · exact h1 y hy
+    · rename_i hs
+      split at h
+      · rename_i he
+        obtain ⟨e, h1, h4⟩ := ih _ _ _ _ _ h
+        refine ⟨e, ?_, by rw [h4, List.filter_cons]; simp [hs]⟩
+        intro y hy
+        rcases List.mem_cons.mp hy with rfl | hy
+        · exact Or.inr he
+        · exact h1 y hy
+      · split at h
+        · cases h
+        · simp at h
+
+/-- **first come, first served (one round).**  Over the pools of one round the waiting queue is consumed from the front: the pipelines served are a
+subsequence of the queue in queue order — pool after pool, each container goes to the first eligible pipeline behind the one served before — and the
+part of the queue that was not reached stays as it is. -/
+theorem pipelines_are_served_in_queue_order (multi : Bool) : ∀ (ips : List (Nat × Pool)) (w : World) (queue req : List Nat) (acc : List Asg)
+    (w' : World) (queue' req' : List Nat) (out : List Asg),
+    pools multi w ips queue req acc = .ok (w', queue', req', out) →
+    ∃ (scanned served : List Nat) (new : List Asg), queue = scanned ++ queue' ∧ out = acc ++ new ∧ served.Sublist scanned ∧
+      Pairs (fun (a : Asg) pid => ∃ wi, a.ops = opsFor wi multi pid ∧ ¬ Skipped wi multi pid) new served ∧
+      ∃ kept, req' = req ++ kept ∧ kept.Sublist scanned ∧ served.Sublist kept := by
+  intro ips
+  induction ips with
+  | nil =>
+    intro w queue req acc w' queue' req' out h
+    simp [pools] at h
+    obtain ⟨_, rfl, rfl, rfl⟩ := h
+    exact ⟨[], [], [], by simp, by simp, List.Sublist.refl _, .nil, [], by simp, List.Sublist.refl _, List.Sublist.refl _⟩
+  | cons ip ips ih =>
+    intro w queue req acc w' queue' req' out h
+    obtain ⟨i, p⟩ := ip
+    unfold pools at h
+    split at h
+    · exact ih _ _ _ _ _ _ _ _ h
+    · split at h
+      · cases h
+      · rename_i w1 q1 r1 oa hp
+        cases oa with
+        | none =>
+          obtain ⟨e, _, h4⟩ := pop_none multi _ _ _ _ _ _ _ _ _ hp
+          subst e
+          obtain ⟨sc, sv, new, e1, e2, s1, f, kept, k1, k2, k3⟩ := ih _ _ _ _ _ _ _ _ h
+          have hsc : sc = [] ∧ queue' = [] := by simpa using e1.symm
+          obtain ⟨rfl, rfl⟩ := hsc
+          have : sv = [] := by simpa using s1
+          subst this
+          have hk : kept = [] := by simpa using k2
+          subst hk
+          refine ⟨queue, [], new, by simp, e2, by simp, f, queue.filter (fun x => !(w.successful x || w.hasFailures x)), ?_, List.filter_sublist, by simp⟩
+          rw [k1, h4]; simp
+        | some a =>
+          obtain ⟨pre, pid, e, _, hns, ha, h4⟩ := first_eligible_pipeline_is_served multi _ _ _ _ _ _ _ _ _ _ hp
+          obtain ⟨sc, sv, new, e1, e2, s1, f, kept, k1, k2, k3⟩ := ih _ _ _ _ _ _ _ _ h
+          refine ⟨pre ++ pid :: sc, pid :: sv, a :: new, ?_, ?_, ?_, .cons ⟨w, ha, hns⟩ f,
+            pre.filter (fun x => !(w.successful x || w.hasFailures x)) ++ pid :: kept, ?_, ?_, ?_⟩
+          · rw [e, e1]; simp
+          · rw [e2]; simp
+          · exact (List.Sublist.cons_cons pid s1).trans (List.sublist_append_right _ _)
+          · rw [k1, h4]; simp
+          · exact List.Sublist.append List.filter_sublist (List.Sublist.cons_cons pid k2)
+          · exact (List.Sublist.cons_cons pid k3).trans (List.sublist_append_right _ _)
+
+/-- **first come, first served (across rounds).**  New arrivals join the back of the waiting queue; the pipelines served in a round are a subsequence of
+(queue ++ arrivals) in that order; the queue handed to the next round is the part not reached followed by the pipelines that were scanned and kept. -/
+theorem round_is_first_come_first_served (multi : Bool) (w w' : World) (st st' : St) (res : List Res) (newP : List Nat) (dec : Decision)
+    (h : round multi w st res newP = .ok (w', st', dec)) (hne : ¬ (newP.isEmpty && res.isEmpty) = true) :
+    ∃ (scanned unreached served kept : List Nat), st.queue ++ newP = scanned ++ unreached ∧ served.Sublist scanned ∧ kept.Sublist scanned ∧ served.Sublist kept ∧
+      st'.queue = unreached ++ kept ∧
+      Pairs (fun (a : Asg) pid => ∃ wi, a.ops = opsFor wi multi pid ∧ ¬ Skipped wi multi pid) dec.asgs served := by
+  unfold round at h
+  rw [if_neg hne] at h
+  split at h
+  · cases h
+  · rename_i w1 q1 r1 asgs hp
+    simp at h
+    obtain ⟨_, rfl, rfl⟩ := h
+    obtain ⟨sc, sv, new, e1, e2, s1, f, kept, k1, k2, k3⟩ := pipelines_are_served_in_queue_order multi _ _ _ _ _ _ _ _ _ hp
+    simp only [List.nil_append] at e2 k1
+    subst e2
+    exact ⟨sc, q1, sv, kept, e1, s1, k2, k3, by rw [k1], f⟩
+
+/-- non-vacuity: three one-operator pipelines arrive together on two pools: pipelines 0 and 1 are served (in that order, pool 0 then pool 1), pipeline 2
+was not reached and now heads the queue, in front of the two that were served and kept -/
+def exWorld : World :=
+  { cfg := { tps := 1, q := 64, g := 1280, multiOp := false },
+    store := ((({} : Store).addOp 0 [] [{ baseNum := 1, read := 0 }]).addOp 1 [] [{ baseNum := 1, read := 0 }]).addOp 2 [] [{ baseNum := 1, read := 0 }],
+    pools := [Pool.fresh 4 512, Pool.fresh 4 512],
+    pipes := #[{ prio := 3, order := [0], first := 0, n := 1 }, { prio := 3, order := [1], first := 1, n := 1 }, { prio := 3, order := [2], first := 2, n := 1 }] }
+
+example : (match round false exWorld {} [] [0, 1, 2] with
+    | .ok (_, st', dec) => some (st'.queue, dec.asgs.map (fun a => (a.pool, a.ops)))
+    | .error _ => none) = some ([2, 0, 1], [(0, [0]), (1, [1])]) := by decide
+
 end Eudoxia.C17
